@@ -93,9 +93,9 @@ Qed.
 
 (* wbxml_strtbl_add_element keeps the invariant (as long as the table stays below 2^32 octets) and returns the
    offset of an entry that holds exactly the string asked for *)
-Lemma strtbl_add_inv tbl tlen s alias idx tbl' tlen' :
+Lemma strtbl_add_inv tbl tlen s idx tbl' tlen' :
   strtbl_inv tbl tlen -> nul_free s -> tlen + len s + 1 < 4294967296 ->
-  strtbl_add tbl tlen s alias = (idx, tbl', tlen') ->
+  strtbl_add tbl tlen s = (idx, tbl', tlen') ->
   strtbl_inv tbl' tlen' /\ (exists e, In e tbl' /\ s_off e = idx /\ s_str e = s) /\
   (exists ext, tbl' = tbl ++ ext) /\ tlen <= tlen'.
 Proof.
@@ -109,53 +109,62 @@ Proof.
       * apply Forall_app. split; [exact Hnf|]. now constructor.
       * rewrite tbl_size_app. cbn [tbl_size s_str]. unfold u32. rewrite N.mod_small by lia. lia.
     + split; [|split; [now eexists|unfold u32; rewrite N.mod_small by lia; lia]].
-      exists (mk_ste s tlen alias). split; [apply in_or_app; right; now left|now cbn].
+      exists (mk_ste s tlen). split; [apply in_or_app; right; now left|now cbn].
 Qed.
 
 (* ------------------------------------------------------------------ *)
 (* header (C06 header clause, C07 anonymous clause)                     *)
 
+(* no textual public id: anonymous, or a language with a numeric public id, or one without XML public id *)
 Definition no_pid (e : env) : bool :=
-  negb ((bl_pub_num (e_lang e) =? 1) && negb (e_anonymous e)) ||
+  e_anonymous e || negb (bl_pub_num (e_lang e) =? 1) ||
   match bl_pub_text (e_lang e) with Some _ => false | None => true end.
 
-(* numeric public id: version, mb(public id), mb(106), mb(table length), table *)
+(* numeric public id: version, mb(public id), [charset 106 unless WBXML 1.0], mb(table length), table *)
 Lemma fill_header_numeric e st :
   no_pid e = true ->
-  fill_header e st = [u8 (e_version e)] ++ mb_write (bl_pub_num (e_lang e)) ++ mb_write 106 ++ mb_write (strtbl_len st)
+  fill_header e st = [u8 (e_version e)] ++ mb_write (header_public_id e) ++ header_charset e ++ mb_write (strtbl_len st)
                      ++ (if e_use_strtbl e then strtbl_construct (strtbl st) else []).
 Proof.
-  unfold no_pid, fill_header. intros H.
-  destruct ((bl_pub_num (e_lang e) =? 1) && negb (e_anonymous e)) eqn:E; cbn [negb orb] in H.
-  - destruct (bl_pub_text (e_lang e)); [discriminate|]. reflexivity.
-  - reflexivity.
+  unfold no_pid, fill_header, header_public_id. intros H.
+  destruct (e_anonymous e) eqn:A; cbn [negb andb orb] in *.
+  - rewrite andb_false_r. reflexivity.
+  - destruct (bl_pub_num (e_lang e) =? 1) eqn:E; cbn [negb andb orb] in *; [|reflexivity].
+    destruct (bl_pub_text (e_lang e)); [discriminate|]. reflexivity.
 Qed.
 
-(* an anonymous document of a language without numeric public id: 0x01 'unknown' and no id string *)
+(* the numeric public id is the language's when the document is not anonymous *)
+Lemma fill_header_numeric_lang e st :
+  e_anonymous e = false -> no_pid e = true ->
+  fill_header e st = [u8 (e_version e)] ++ mb_write (bl_pub_num (e_lang e)) ++ header_charset e ++ mb_write (strtbl_len st)
+                     ++ (if e_use_strtbl e then strtbl_construct (strtbl st) else []).
+Proof. intros Ha Hp. rewrite (fill_header_numeric e st Hp). unfold header_public_id. now rewrite Ha. Qed.
+
+(* an anonymous document, whatever the language: 0x01 'unknown' and no id string *)
 Lemma fill_header_anonymous e st :
-  e_anonymous e = true -> bl_pub_num (e_lang e) = 1 ->
-  fill_header e st = [u8 (e_version e); 1] ++ mb_write 106 ++ mb_write (strtbl_len st)
+  e_anonymous e = true ->
+  fill_header e st = [u8 (e_version e); 1] ++ header_charset e ++ mb_write (strtbl_len st)
                      ++ (if e_use_strtbl e then strtbl_construct (strtbl st) else []).
 Proof.
-  intros Ha Hn. rewrite fill_header_numeric.
-  - rewrite Hn. reflexivity.
-  - unfold no_pid. rewrite Ha, Hn. reflexivity.
+  intros Ha. rewrite fill_header_numeric.
+  - unfold header_public_id. rewrite Ha. reflexivity.
+  - unfold no_pid. rewrite Ha. reflexivity.
 Qed.
 
 (* textual public id without string table: 0, index 0, charset, length of the id + 1, the id, NUL *)
 Lemma fill_header_textual_nostrtbl e st p :
   bl_pub_num (e_lang e) = 1 -> e_anonymous e = false -> bl_pub_text (e_lang e) = Some p -> e_use_strtbl e = false ->
-  fill_header e st = [u8 (e_version e)] ++ ([0] ++ mb_write 0) ++ mb_write 106 ++ mb_write (u32 (len p + 1)) ++ (p ++ [0]).
+  fill_header e st = [u8 (e_version e)] ++ ([0] ++ mb_write 0) ++ header_charset e ++ mb_write (u32 (len p + 1)) ++ (p ++ [0]).
 Proof.
-  intros Hn Ha Hp Hu. unfold fill_header. rewrite Hn, Ha, Hp, Hu. reflexivity.
+  intros Hn Ha Hp Hu. unfold fill_header, header_public_id. rewrite Ha, Hn, Hp, Hu. reflexivity.
 Qed.
 
 (* the version byte is the requested one, whatever else *)
 Lemma fill_header_version e st : exists r, fill_header e st = u8 (e_version e) :: r.
 Proof.
   unfold fill_header.
-  destruct ((bl_pub_num (e_lang e) =? 1) && negb (e_anonymous e)); [destruct (bl_pub_text (e_lang e))|];
-    try destruct (e_use_strtbl e); try destruct (strtbl_add _ _ _ _) as [[? ?] ?]; eexists; reflexivity.
+  destruct ((header_public_id e =? 1) && negb (e_anonymous e)); [destruct (bl_pub_text (e_lang e))|];
+    try destruct (e_use_strtbl e); try destruct (strtbl_add _ _ _) as [[? ?] ?]; eexists; reflexivity.
 Qed.
 
 (* ================================================================== *)
@@ -187,16 +196,14 @@ End NodeInd.
 (* the string table through the whole tree walk                         *)
 
 Definition tinv (st : est) : Prop := offsets_from 0 (strtbl st) /\ strtbl_len st = tbl_size (strtbl st).
-Definition no_alias (tbl : list ste) : Prop := Forall (fun e => s_alias e = None) tbl.
-(* no entry can be modified behind the table's back: either text is never trimmed, or no entry shares a buffer *)
-Definition nac (e : env) (st : est) : Prop := e_remove_blanks e = false \/ no_alias (strtbl st).
 Definition bnd (st : est) : Prop := tbl_size (strtbl st) < 4294967296.
 Definition ext (st st' : est) : Prop := exists x, strtbl st' = strtbl st ++ x.
 Definition same (st st' : est) : Prop := strtbl st' = strtbl st /\ strtbl_len st' = strtbl_len st.
 
+(* a step only appends to the table, and keeps the invariant as long as the table stays below 2^32 octets.
+   (Since the repair of D7 the table owns its strings: no step can change an existing entry.) *)
 Definition ok (e : env) (st : est) (r : eres (bytes * est)) : Prop :=
-  forall b st', r = EOk (b, st') -> nac e st ->
-    (ext st st' /\ nac e st') /\ (tinv st -> bnd st' -> tinv st').
+  forall b st', r = EOk (b, st') -> ext st st' /\ (tinv st -> bnd st' -> tinv st').
 
 Lemma ext_refl st : ext st st. Proof. exists []. now rewrite app_nil_r. Qed.
 Lemma ext_trans a b c : ext a b -> ext b c -> ext a c.
@@ -208,8 +215,8 @@ Proof. intros [H _]. exists []. now rewrite app_nil_r. Qed.
 
 Lemma ok_ret e st b st' : same st st' -> ok e st (EOk (b, st')).
 Proof.
-  intros [H1 H2] b0 st0 Heq Hn. injection Heq as <- <-. split.
-  - split; [apply same_ext; now split|]. unfold nac in *. now rewrite H1.
+  intros [H1 H2] b0 st0 Heq. injection Heq as <- <-. split.
+  - apply same_ext; now split.
   - unfold tinv. now rewrite H1, H2.
 Qed.
 
@@ -220,44 +227,42 @@ Lemma ok_bind e st ra (k : bytes -> est -> eres (bytes * est)) :
   ok e st ra -> (forall b1 st1, ok e st1 (k b1 st1)) ->
   ok e st (match ra with EOk (b1, st1) => k b1 st1 | EErr c => EErr c end).
 Proof.
-  intros Ha Hk b st' Heq Hn. destruct ra as [[b1 st1]|c]; [|discriminate].
-  destruct (Ha b1 st1 eq_refl Hn) as [[He1 Hn1] Hi1].
-  destruct (Hk b1 st1 b st' Heq Hn1) as [[He2 Hn2] Hi2].
-  split; [split; [eapply ext_trans; eassumption|exact Hn2]|].
+  intros Ha Hk b st' Heq. destruct ra as [[b1 st1]|c]; [|discriminate].
+  destruct (Ha b1 st1 eq_refl) as [He1 Hi1].
+  destruct (Hk b1 st1 b st' Heq) as [He2 Hi2].
+  split; [eapply ext_trans; eassumption|].
   intros Hi Hb. apply Hi2; [|exact Hb]. apply Hi1; [exact Hi|]. eapply ext_bnd; eassumption.
 Qed.
 
 (* a step that starts from a state with the same table *)
 Lemma ok_same e st st0 r : same st st0 -> ok e st0 r -> ok e st r.
 Proof.
-  intros [H1 H2] H b st' Heq Hn.
-  assert (Hn0 : nac e st0) by (unfold nac in *; now rewrite H1).
-  destruct (H b st' Heq Hn0) as [[[x Hx] Hn'] Hi]. split.
-  - split; [exists x; now rewrite Hx, H1|exact Hn'].
+  intros [H1 H2] H b st' Heq.
+  destruct (H b st' Heq) as [[x Hx] Hi]. split.
+  - exists x; now rewrite Hx, H1.
   - intros Ht. apply Hi. unfold tinv in *. now rewrite H1, H2.
 Qed.
 
 Lemma strtbl_add_ok tbl tlen s idx tbl' tlen' :
-  strtbl_add tbl tlen s None = (idx, tbl', tlen') ->
-  (exists x, tbl' = tbl ++ x) /\ (no_alias tbl -> no_alias tbl') /\
+  strtbl_add tbl tlen s = (idx, tbl', tlen') ->
+  (exists x, tbl' = tbl ++ x) /\
   (offsets_from 0 tbl /\ tlen = tbl_size tbl -> tbl_size tbl' < 4294967296 -> offsets_from 0 tbl' /\ tlen' = tbl_size tbl').
 Proof.
   unfold strtbl_add. destruct (find _ tbl) as [e0|] eqn:F; intros H; injection H as <- <- <-.
-  - split; [exists []; now rewrite app_nil_r|]. split; auto.
-  - split; [now eexists|]. split.
-    + intros Hn. apply Forall_app. split; [exact Hn|]. now constructor.
-    + intros [Ho Hl] Hb. rewrite tbl_size_app in Hb. cbn [tbl_size s_str] in Hb. split.
-      * apply offsets_from_app. split; [exact Ho|]. cbn [offsets_from s_off]. split; [lia|exact I].
-      * rewrite tbl_size_app. cbn [tbl_size s_str]. unfold u32. rewrite N.mod_small by lia. lia.
+  - split; [exists []; now rewrite app_nil_r|]. auto.
+  - split; [now eexists|].
+    intros [Ho Hl] Hb. rewrite tbl_size_app in Hb. cbn [tbl_size s_str] in Hb. split.
+    + apply offsets_from_app. split; [exact Ho|]. cbn [offsets_from s_off]. split; [lia|exact I].
+    + rewrite tbl_size_app. cbn [tbl_size s_str]. unfold u32. rewrite N.mod_small by lia. lia.
 Qed.
 
 Lemma enc_literal_ok e st name mask : ok e st (enc_literal e st name mask).
 Proof.
   unfold enc_literal. destruct (e_use_strtbl e); [|apply ok_err].
-  destruct (strtbl_add _ _ _ _) as [[idx tbl'] tlen'] eqn:A.
-  apply strtbl_add_ok in A. destruct A as ([x Hx] & Hna & Hinv).
-  intros b st' Heq Hn. injection Heq as <- <-. cbn [strtbl strtbl_len set_strtbl]. split.
-  - split; [exists x; exact Hx|]. destruct Hn as [Hn|Hn]; [now left|right; cbn; auto].
+  destruct (strtbl_add _ _ _) as [[idx tbl'] tlen'] eqn:A.
+  apply strtbl_add_ok in A. destruct A as ([x Hx] & Hinv).
+  intros b st' Heq. injection Heq as <- <-. cbn [strtbl strtbl_len set_strtbl]. split.
+  - exists x; exact Hx.
   - unfold tinv, bnd. cbn [strtbl strtbl_len set_strtbl]. intros Ht Hb. now apply Hinv.
 Qed.
 
@@ -361,35 +366,13 @@ Proof.
   - intros. apply ok_ret. now split.
 Qed.
 
-Lemma strip_alias_id k tbl : no_alias tbl -> strip_alias k tbl = tbl.
-Proof.
-  unfold strip_alias. induction 1 as [|x r Hx _ IH]; cbn [map]; [reflexivity|]. now rewrite Hx, IH.
-Qed.
-
-Lemma enc_text_ok e st par k c : ok e st (enc_text e st par k c).
+Lemma enc_text_ok e st par c : ok e st (enc_text e st par c).
 Proof.
   unfold enc_text. destruct (is_binary_tag st); [apply ok_ret; now split|].
   destruct (negb (in_cdata st) && e_ignore_empty e && only_ws c); [apply ok_ret; now split|].
-  cbv zeta. destruct (negb (in_cdata st) && e_remove_blanks e) eqn:S.
-  - (* trimming: allowed to touch the table only if no entry is aliased *)
-    intros b st' Heq Hn.
-    assert (Hna : no_alias (strtbl st)).
-    { destruct Hn as [Hn|Hn]; [|exact Hn]. rewrite Hn, andb_false_r in S. discriminate. }
-    assert (Hs : same st (set_strtbl st (strip_alias k (strtbl st)) (strtbl_len st))).
-    { split; cbn; [now rewrite strip_alias_id|reflexivity]. }
-    revert b st' Heq Hn. change (ok e st (if in_cdata (set_strtbl st (strip_alias k (strtbl st)) (strtbl_len st)) then
-       match cdata (set_strtbl st (strip_alias k (strtbl st)) (strtbl_len st)) with
-       | Some d => EOk ([], set_cdata (set_strtbl st (strip_alias k (strtbl st)) (strtbl_len st)) true
-                            (Some (d ++ (if is_syncml (e_lang e) && beq (strip_blanks c) [10] then [13; 10] else strip_blanks c))))
-       | None => EErr E_INTERNAL end
-       else enc_value e (set_strtbl st (strip_alias k (strtbl st)) (strtbl_len st)) false None [] par (cstr (strip_blanks c)))).
-    eapply ok_same; [exact Hs|].
-    destruct (in_cdata _).
-    + destruct (cdata _); [apply ok_ret; now split|apply ok_err].
-    + apply enc_value_ok.
-  - destruct (in_cdata st).
-    + destruct (cdata st); [apply ok_ret; now split|apply ok_err].
-    + apply enc_value_ok.
+  cbv zeta. destruct (in_cdata st).
+  - destruct (cdata st); [apply ok_ret; now split|apply ok_err].
+  - apply enc_value_ok.
 Qed.
 
 Lemma seq_nodes_ok pn e ns :
@@ -414,7 +397,7 @@ Proof.
        (fun b2 st2 => EOk (b1 ++ b2 ++ (if match ch with [] => false | _ => true end then [1] else []), set_cur_tag st2 None))).
     + now apply seq_nodes_ok.
     + intros. apply ok_ret. now split.
-  - apply (ok_bind e st (enc_text e st p (tid st) c) (fun b st1 => EOk (b, set_cur_tag (set_tid st1 (tid st + 1)) None))); [apply enc_text_ok|].
+  - apply (ok_bind e st (enc_text e st p c) (fun b st1 => EOk (b, set_cur_tag st1 None))); [apply enc_text_ok|].
     intros. apply ok_ret. now split.
   - destruct (cdata st); [apply ok_err|].
     eapply ok_same with (st0 := set_cdata st true (Some [])); [now split|].
@@ -435,19 +418,6 @@ Proof. unfold parse_nodes. apply seq_nodes_ok. apply Forall_forall. intros n _. 
 
 
 (* ---- wbxml_strtbl_initialize establishes the invariant ------------------------------------- *)
-Lemma strtbl_add_any tbl tlen s a idx tbl' tlen' :
-  strtbl_add tbl tlen s a = (idx, tbl', tlen') ->
-  (exists x, tbl' = tbl ++ x) /\
-  (offsets_from 0 tbl /\ tlen = tbl_size tbl -> tbl_size tbl' < 4294967296 -> offsets_from 0 tbl' /\ tlen' = tbl_size tbl').
-Proof.
-  unfold strtbl_add. destruct (find _ tbl) as [e0|] eqn:F; intros H; injection H as <- <- <-.
-  - split; [exists []; now rewrite app_nil_r|]. auto.
-  - split; [now eexists|].
-    intros [Ho Hl] Hb. rewrite tbl_size_app in Hb. cbn [tbl_size s_str] in Hb. split.
-    + apply offsets_from_app. split; [exact Ho|]. cbn [offsets_from s_off]. split; [lia|exact I].
-    + rewrite tbl_size_app. cbn [tbl_size s_str]. unfold u32. rewrite N.mod_small by lia. lia.
-Qed.
-
 Lemma keep_refs_inv refs : forall tbl tlen tbl' tlen' one,
   keep_refs refs tbl tlen = (tbl', tlen', one) ->
   (exists x, tbl' = tbl ++ x) /\
@@ -456,8 +426,8 @@ Proof.
   induction refs as [|r rest IH]; intros tbl tlen tbl' tlen' one; cbn [keep_refs].
   - intros H; injection H as <- <- <-. split; [exists []; now rewrite app_nil_r|auto].
   - destruct ((1 <? r_count r) && (3 <? len (r_str r))).
-    + destruct (strtbl_add tbl tlen (r_str r) (r_alias r)) as [[i t1] l1] eqn:A. intros H.
-      apply strtbl_add_any in A. destruct A as ([x Hx] & HA).
+    + destruct (strtbl_add tbl tlen (r_str r)) as [[i t1] l1] eqn:A. intros H.
+      apply strtbl_add_ok in A. destruct A as ([x Hx] & HA).
       apply IH in H. destruct H as ([y Hy] & HB). split.
       * exists (x ++ y). now rewrite Hy, Hx, app_assoc.
       * intros Hi Hb. apply HB; [|exact Hb]. apply HA; [exact Hi|]. rewrite Hy, tbl_size_app in Hb. lia.
@@ -470,8 +440,8 @@ Lemma strtbl_initialize_inv l roots tbl tlen :
   offsets_from 0 tbl /\ tlen = tbl_size tbl.
 Proof.
   unfold strtbl_initialize, check_references.
-  destruct (collect_nodes l roots 0) as [strings k].
-  destruct (keep_refs (count_refs strings []) [] 0) as [[t1 l1] one] eqn:K1.
+  cbv zeta.
+  destruct (keep_refs (count_refs (collect_nodes l roots) []) [] 0) as [[t1 l1] one] eqn:K1.
   destruct (keep_refs _ t1 l1) as [[t2 l2] one2] eqn:K2.
   intros H Hb; injection H as <- <-.
   apply keep_refs_inv in K1. apply keep_refs_inv in K2.
@@ -489,17 +459,11 @@ Proof.
 Qed.
 
 Theorem enc_body_strtbl_exact tbl l o roots body st :
-  o_keep_ws o = true \/ o_use_strtbl o = false ->
   enc_body tbl l o roots = EOk (body, st) -> bnd st -> tinv st.
 Proof.
-  intros Hopt. unfold enc_body. cbv zeta. intros H Hb.
-  pose proof (parse_nodes_ok tbl (enc_env l o) None roots (start_state (enc_env l o) roots) body st H) as Hok.
-  assert (Hn : nac (enc_env l o) (start_state (enc_env l o) roots)).
-  { destruct Hopt as [Hk|Hu].
-    - left. unfold enc_env, make_env. cbn. now rewrite Hk.
-    - right. unfold start_state, enc_env, make_env. cbn. rewrite Hu. cbn. constructor. }
-  destruct (Hok Hn) as [[He _] Hi]. apply Hi; [|exact Hb].
-  apply start_state_tinv. eapply ext_bnd; eassumption.
+  unfold enc_body. cbv zeta. intros H Hb.
+  destruct (parse_nodes_ok tbl (enc_env l o) None roots (start_state (enc_env l o) roots) body st H) as [He Hi].
+  apply Hi; [|exact Hb]. apply start_state_tinv. eapply ext_bnd; eassumption.
 Qed.
 
 (* the table written by the header is exactly as long as declared (string table in use, numeric public id) *)
@@ -509,25 +473,19 @@ Theorem header_strtbl_length_exact e st :
               len (strtbl_construct (strtbl st)) = strtbl_len st.
 Proof.
   intros Hp Hu [_ Hl]. rewrite fill_header_numeric by exact Hp. rewrite Hu.
-  exists ([u8 (e_version e)] ++ mb_write (bl_pub_num (e_lang e)) ++ mb_write 106). split.
+  exists ([u8 (e_version e)] ++ mb_write (header_public_id e) ++ header_charset e). split.
   - now rewrite <- !app_assoc.
   - now rewrite strtbl_construct_len.
 Qed.
 
-(* ---- D7: with trimming and aliasing the invariant is lost (witness) ------------------------- *)
+(* ---- D7 (history): before /repo 6829a7f a table entry promoted from the tree shared the text node's buffer and
+   parse_text trimmed it in place; the model of that code refuted the theorem above on the tree below (string table on,
+   keep-ws off: declared length 14, table written 11).  The tree is kept as a regression example. ------------------- *)
 Definition d7_lang : blang := mk_blang 1102 4 None None None None None.
 Definition d7_p (t : bytes) : node := NElt (TagTok 0 32 0 [112]) [] [NText t].
 Definition d7_tree : list node :=
   [NElt (TagTok 0 63 0 [119; 109; 108]) []
      [d7_p [32; 32; 97; 98; 99; 100; 32]; d7_p [32; 32; 97; 98; 99; 100; 32]; d7_p [119; 120; 121; 122; 49]; d7_p [119; 120; 121; 122; 49]]].
-
-Theorem strtbl_exact_refuted :
-  exists tbl l o roots body st,
-    enc_body tbl l o roots = EOk (body, st) /\ strtbl_len st <> tbl_size (strtbl st).
-Proof.
-  exists [], d7_lang, (mk_opts 3 true false false), d7_tree.
-  eexists. eexists. split; [vm_compute; reflexivity|vm_compute; discriminate].
-Qed.
 
 (* ---- C07: the body does not depend on `anonymous`, nor on `version` without embedded trees -- *)
 Definition set_anon (e : env) (a : bool) : env :=
@@ -791,19 +749,19 @@ Qed.
 Lemma fill_header_textual_strtbl e st p :
   bl_pub_num (e_lang e) = 1 -> e_anonymous e = false -> bl_pub_text (e_lang e) = Some p -> e_use_strtbl e = true ->
   exists idx tbl tlen,
-    strtbl_add (strtbl st) (strtbl_len st) p None = (idx, tbl, tlen) /\
-    fill_header e st = [u8 (e_version e)] ++ ([0] ++ mb_write idx) ++ mb_write 106 ++ mb_write tlen ++ strtbl_construct tbl /\
+    strtbl_add (strtbl st) (strtbl_len st) p = (idx, tbl, tlen) /\
+    fill_header e st = [u8 (e_version e)] ++ ([0] ++ mb_write idx) ++ header_charset e ++ mb_write tlen ++ strtbl_construct tbl /\
     (tinv st -> tbl_size tbl < 4294967296 ->
        (offsets_from 0 tbl /\ tlen = len (strtbl_construct tbl)) /\ exists x, In x tbl /\ s_off x = idx /\ s_str x = p).
 Proof.
-  intros Hn Ha Hp Hu. unfold fill_header. rewrite Hn, Ha, Hp, Hu.
+  intros Hn Ha Hp Hu. unfold fill_header, header_public_id. rewrite Ha, Hn, Hp, Hu.
   change ((1 =? 1) && negb false) with true. cbv iota.
-  destruct (strtbl_add (strtbl st) (strtbl_len st) p None) as [[idx tbl] tlen] eqn:A.
+  destruct (strtbl_add (strtbl st) (strtbl_len st) p) as [[idx tbl] tlen] eqn:A.
   exists idx, tbl, tlen. split; [reflexivity|]. split; [reflexivity|].
-  intros [Ho Hl] Hb. pose proof A as A'. apply strtbl_add_any in A'. destruct A' as (_ & HI).
+  intros [Ho Hl] Hb. pose proof A as A'. apply strtbl_add_ok in A'. destruct A' as (_ & HI).
   destruct (HI (conj Ho Hl) Hb) as [Ho' Hl']. split; [split; [exact Ho'|now rewrite strtbl_construct_len]|].
   unfold strtbl_add in A. destruct (find _ (strtbl st)) as [e0|] eqn:F; injection A as <- <- <-.
   - apply find_some in F. destruct F as [Hin Heq]. apply andb_true_iff in Heq. destruct Heq as [_ Heq].
     apply beq_eq in Heq. exists e0. auto.
-  - exists (mk_ste p (strtbl_len st) None). split; [apply in_or_app; right; now left|now cbn].
+  - exists (mk_ste p (strtbl_len st)). split; [apply in_or_app; right; now left|now cbn].
 Qed.
